@@ -753,6 +753,39 @@ def rule_g(model, rep, table):
     h, lo, hi, cs = sizes("bcrypt")
     rep.check(reps.get("salt") == (hi, hi) and reps.get("hash") == (cs, cs), R, site(u.name, "BCRYPT_HASH_REGEX"), f"salt {reps.get('salt')} hash {reps.get('hash')} vs passlib bcrypt ({hi}, {cs})",
               "libpass bcrypt regex splits salt and digest where passlib does (22 + 31)")
+    # PHC string format: id 1..32, salt 8..48 bytes, hash 12..64 bytes, unpadded base64
+    pu = model.unit("libpass.inspect.phc._phc")
+    pat, flags = fold_regex(model, pu, pu.assigns["PHC_REGEX"][0])
+    reps = T.group_repeats(pat, flags)
+    b64len = lambda nbytes: -(-nbytes * 4 // 3)
+    want = {"id": (1, 32), "salt": (b64len(8), b64len(48)), "hash": (b64len(12), b64len(64))}
+    for g, w in want.items():
+        rep.check(reps.get(g) == w, R, site(pu.name, "PHC_REGEX") + f" {g}", f"{g} repeat {reps.get(g)} vs {w}", f"PHC field `{g}` accepts exactly the lengths the format allows (unpadded base64 of the byte range)",
+                  witness="a well-formed record at the boundary (e.g. a 64-byte argon2 tag = 86 characters) is refused by inspect_phc(): it can neither be parsed nor re-rendered")
+    B64 = "ABCDEFGHIJKLMNOPQRSTUVWXYZabcdefghijklmnopqrstuvwxyz0123456789+/"
+    for g in ("salt", "hash"):
+        rej = T.group_rejects(pat, flags, g, B64)
+        rep.check(rej == "", R, site(pu.name, "PHC_REGEX") + f" {g} alphabet", f"{g} class rejects {rej!r}", f"PHC field `{g}` accepts every base64 character")
+    # libpass pbkdf2: adapted base64 (./0-9A-Za-z) in salt and digest
+    lu = model.unit("libpass.inspect.pbkdf2")
+    pat, flags = _class_regex(model, ("libpass.inspect.pbkdf2", "BasePBKDF2CryptInfo"), lu, "REGEX")
+    AB64 = "ABCDEFGHIJKLMNOPQRSTUVWXYZabcdefghijklmnopqrstuvwxyz0123456789./"
+    for g in ("salt", "hash"):
+        rej = T.group_rejects(pat, flags, g, AB64)
+        rep.check(rej == "", R, site(lu.name, "BasePBKDF2CryptInfo.REGEX") + f" {g} alphabet", f"{g} class rejects {rej!r}", f"pbkdf2 field `{g}` accepts every adapted-base64 character ('.' and '/' included)",
+                  witness="a pbkdf2 hash whose salt or digest encodes a 6-bit group of 62 ('.') is not recognised by the libpass hasher: identify/verify False for the right password")
+    # libpass sha-crypt / bcrypt: hash64 / bcrypt64 characters
+    H64 = "./0123456789ABCDEFGHIJKLMNOPQRSTUVWXYZabcdefghijklmnopqrstuvwxyz"
+    for lun, cn in (("libpass.inspect.sha_crypt", "SHA256CryptInfo"), ("libpass.inspect.sha_crypt", "SHA512CryptInfo")):
+        pat, flags = _class_regex(model, (lun, cn), model.unit(lun), "REGEX")
+        for g in ("salt", "hash"):
+            rej = T.group_rejects(pat, flags, g, H64)
+            rep.check(rej == "", R, site(lun, f"{cn}.REGEX") + f" {g} alphabet", f"{g} class rejects {rej!r}", f"sha-crypt field `{g}` accepts every hash64 character")
+    bu = model.unit("libpass.inspect.bcrypt")
+    pat, flags = fold_regex(model, bu, bu.assigns["BCRYPT_HASH_REGEX"][0])
+    for g in ("salt", "hash"):
+        rej = T.group_rejects(pat, flags, g, H64)
+        rep.check(rej == "", R, site(bu.name, "BCRYPT_HASH_REGEX") + f" {g} alphabet", f"{g} class rejects {rej!r}", f"bcrypt field `{g}` accepts every bcrypt64 character")
     # ldap digests: base64 lengths from digest sizes
     from pv.handlers import DIGEST_SIZES
     L = H + "ldap_digests"
